@@ -12,6 +12,7 @@ package main
 
 import (
 	"fmt"
+	"math"
 	"sort"
 	"strconv"
 	"strings"
@@ -255,6 +256,17 @@ func (a *area) Run(line string) string {
 var pool = []string{"a", "a", "a", "b", "b", "bc", "c", "a", "b", "foo", "bar", "barn"}
 var prios = []int{-3, -1, 0, 0, 1, 1, 2, 2, 5, 7}
 
+// extreme priorities ("always first" / "always last"): differences that do not fit an int
+var bigPrios = []int{math.MaxInt, math.MaxInt, math.MaxInt - 1, math.MinInt, math.MinInt, math.MinInt + 1, 1 << 62, -(1 << 62),
+	1 << 31, -(1 << 31), 1<<31 - 1, 1 << 32, -(1 << 32), 0, 1, -1}
+
+func genPrio(r *hx.Rng) int {
+	if r.Chance(1, 4) {
+		return hx.Pick(r, bigPrios)
+	}
+	return hx.Pick(r, prios)
+}
+
 func genSegs(r *hx.Rng) []string {
 	d := 1 + r.Intn(2)
 	if r.Chance(1, 5) {
@@ -360,7 +372,7 @@ func (a *area) Gen(r *hx.Rng, n int, _ string, emit func(string)) {
 				case 3:
 					cnt = 3
 				}
-				parts := []string{"reg", nn, t, strconv.Itoa(hx.Pick(r, prios))}
+				parts := []string{"reg", nn, t, strconv.Itoa(genPrio(r))}
 				for j := 0; j < cnt; j++ {
 					parts = append(parts, hx.Hex([]byte(genName(r, &known, true))))
 				}
